@@ -78,6 +78,8 @@ def compile_batch(preamble, probes, compiler, std, tag, extra_flags="", timeout=
     core.write(src, emit(preamble, probes))
     cmd = core.compile_cmd(compiler, std, extra_flags, src, syntax_only=True, no_repo_inc=no_repo_inc, extra_inc=extra_inc)
     rc, so, se = core.sh(cmd, timeout=timeout)
+    if rc == -9:  # wall-clock watchdog only (a batch takes seconds on an idle machine): once more, with a longer leash, before giving up
+        rc, so, se = core.sh(cmd, timeout=timeout * 4)
     if rc == -9:
         raise core.Inconclusive(f"compiler timeout on batch {tag}")
     by, loose = attribute(se)
